@@ -12,7 +12,7 @@ def prep(sid):
         shutil.rmtree(d)
     os.makedirs(d)
     subprocess.run("git -C /repo archive HEAD xandikos | tar -x -C %s" % d, shell=True, check=True)
-    r = subprocess.run(["git", "apply", "--whitespace=nowarn", "/verif/seeded/%s/patch.diff" % sid], cwd=d, capture_output=True, text=True)
+    r = subprocess.run(["git", "apply", "--whitespace=nowarn", "--include=xandikos/*", "/verif/seeded/%s/patch.diff" % sid], cwd=d, capture_output=True, text=True)
     return r.returncode == 0
 
 def work(a):
